@@ -541,8 +541,8 @@ def _groups(case, toks, want_stream):
             m = len(members)
             members.append(k)
             alive[m] = k
-        elif op.startswith("ext("):
-            for _ in op[4:-1].split(";"):
+        elif op.startswith("ext(") or op.startswith("iter("):
+            for _ in op[op.index("(") + 1:-1].split(";"):
                 e = nxt()
                 if e != ("K", None):
                     return f"expected the marker of an extend-insert, got {e}"
